@@ -232,21 +232,29 @@ def rule_stop(F, R, maxlen):
     from . import tokens as T
     it = F.find("walk::glob::WalkProgram::compile")
     n = 0
+    def component(kind, i):
+        if kind == "B":      # the component is a boundary: a tree wildcard
+            return [T.leaf("tree", "k%d" % i)]
+        if kind == "M":      # a token that spans a boundary shares the component with other tokens: `<*/:0,2>x*`
+            return [T.branch("rep", [T.branch("cat", [T.leaf("zom", "r%d" % i), T.leaf("sep", "s%d" % i)], "c%d" % i)], "m%d" % i, lower=0, upper=2),
+                    T.leaf("lit", "k%d" % i), T.leaf("zom", "z%d" % i)]
+        return [T.leaf("lit", "k%d" % i), T.leaf("zom", "z%d" % i)]
     for length in range(0, maxlen + 1):
-        for pattern in itertools.product((False, True), repeat=length):
-            comps = [[T.leaf("tree", "k%d" % i)] if b else [T.leaf("lit", "k%d" % i), T.leaf("zom", "z%d" % i)] for i, b in enumerate(pattern)]
+        for pattern in itertools.product("-BM", repeat=length):
+            comps = [component(kind, i) for i, kind in enumerate(pattern)]
             ps = component_programs(F, comps)
             got = None if ps is None else [compiled_index(x) for x in ps]
             kk = 0
-            while kk < length and not pattern[kk]:
+            while kk < length and pattern[kk] == "-":
                 kk += 1
             want = list(range(kk))
             n += 1
-            R.check(got == want, "C02.stop", "components=%s" % "".join("B" if b else "-" for b in pattern), "programs for the first %d component(s)" % kk, it.where(),
+            R.check(got == want, "C02.stop", "components=%s" % "".join(pattern), "programs for the first %d component(s)" % kk, it.where(),
                     fail_msg="for components with boundaries at %s WalkProgram::compile builds programs of components %r, expected %r: programs must cover "
-                             "exactly the maximal boundary-free prefix (after `**` the component index no longer matches the path depth)" % (
-                                 [i for i, b in enumerate(pattern) if b], got if ps is None else [c13._n(x) if compiled_index(x) is None else compiled_index(x) for x in ps], want))
-    R.floor("C02.stop", "component lists", n, 15)
+                             "exactly the maximal boundary-free prefix (after `**`, or a component in which any token spans a separator, the component index no longer matches "
+                             "the path depth: a directory is compared with a program that spans several levels and pruned)" % (
+                                 [i for i, b in enumerate(pattern) if b != "-"], got if ps is None else [c13._n(x) if compiled_index(x) is None else compiled_index(x) for x in ps], want))
+    R.floor("C02.stop", "component lists", n, 40)
 
 
 LITERAL_COMPONENTS = {
